@@ -24,6 +24,7 @@ pub fn trial(seed: u64, nthreads: usize, iters: usize, out: &str, cases: &str) {
     let docs: Vec<jmespath::Rcvar> = pool.iter().map(|c| tagged_to_var(&c["doc"]).unwrap()).collect();
     let docs_before: Vec<String> = docs.iter().map(|d| d.to_string()).collect();
     let shared_docs = Arc::new(docs);
+    let docs_text: Arc<Vec<String>> = Arc::new(docs_before.clone());
     // expressions shared between threads are compiled by thread 0 and published through this slot
     let shared_exprs: Arc<Mutex<Option<Arc<Vec<Option<jmespath::Expression<'static>>>>>>> = Arc::new(Mutex::new(None));
     let barrier = Arc::new(Barrier::new(nthreads));
@@ -33,6 +34,7 @@ pub fn trial(seed: u64, nthreads: usize, iters: usize, out: &str, cases: &str) {
         let (barrier, shared_docs, shared_exprs, results) = (barrier.clone(), shared_docs.clone(), shared_exprs.clone(), results.clone());
         let texts = texts.clone();
         let pool = pool.clone();
+        let docs_text = docs_text.clone();
         handles.push(std::thread::spawn(move || {
             let mut rng = StdRng::seed_from_u64(seed.wrapping_mul(1000).wrapping_add(t as u64));
             let mut log: Vec<Value> = vec![];
@@ -57,8 +59,20 @@ pub fn trial(seed: u64, nthreads: usize, iters: usize, out: &str, cases: &str) {
                 let i = rng.gen_range(0..texts.len());
                 let shared = shared_exprs.lock().unwrap().clone();
                 let use_shared = shared.is_some() && rng.gen_bool(0.6);
+                // one search in four reads its document again from JSON text inside the loop (the JSON reader runs concurrently with
+                // whatever the other threads are inside of)
+                let reparse = rng.gen_bool(0.25);
                 let r = std::panic::catch_unwind(std::panic::AssertUnwindSafe(|| {
-                    if use_shared {
+                    if reparse {
+                        let d = match jmespath::Variable::from_json(&docs_text[i]) {
+                            Ok(d) => d,
+                            Err(_) => return Raw::NoCompile(json!({"harness":ascii_cps("document does not parse again")})),
+                        };
+                        match jmespath::compile(&texts[i]) {
+                            Ok(e) => Raw::Done(e.search(d)),
+                            Err(e) => Raw::NoCompile(json!({"err":err_to_json(&e, &texts[i]),"stage":"compile"})),
+                        }
+                    } else if use_shared {
                         match &shared.unwrap()[i] {
                             Some(e) => Raw::Done(e.search(shared_docs[i].clone())),
                             None => Raw::NoCompile(json!({"err":{"class":"parse","kind":"parse"},"stage":"compile"})),
